@@ -208,9 +208,12 @@ def reuse_info_of_file(
             fp.seek(0)
             # Scan the file for REUSE info, possibly limiting the read
             # length
-            file_result = extract_reuse_info(
-                decoded_text_from_binary(fp, size=read_limit)
-            )
+            text = decoded_text_from_binary(fp, size=read_limit)
+            # The limit falls somewhere inside of a line, or a character.
+            # Half a tag is not read at all rather than read wrong.
+            if read_limit is not None and fp.read(1):
+                text = text[: text.rfind("\n") + 1]
+            file_result = extract_reuse_info(text)
             if file_result.contains_copyright_or_licensing():
                 source_type = SourceType.FILE_HEADER
                 if path.suffix == ".license":
